@@ -582,13 +582,17 @@ func runClient(cc childCfg, mod srvModule, dm d2Module) childOut {
 		}
 	}
 	for k, e := range expect {
-		if strings.Contains(e, " ok |") {
+		if strings.Contains(e, " ok |") || strings.HasPrefix(e, "ok |") || (strings.HasPrefix(k, "built:") && strings.HasPrefix(e, "2")) {
 			out.Nontrivial = append(out.Nontrivial, fmt.Sprintf("client:%s:%s:procs%d", mod.name, k, cc.Procs))
 		}
 	}
 	out.Statuses = map[string]string{}
 	for k, e := range expect {
 		i := strings.Index(e, " | ")
+		if i < 0 { // a request built earlier and sent later: "<status> <echo headers>"
+			out.Statuses["client:"+k] = strings.SplitN(e, " ", 2)[0]
+			continue
+		}
 		f := strings.Fields(e[:i])
 		st := strings.Join(f, " ")
 		if j := strings.LastIndex(st, " ok"); j >= 0 && strings.HasSuffix(st, " ok") || st == "ok" {
